@@ -2,7 +2,7 @@
 (***************************************************************************)
 (* L2: the UDP bridge (C06 C07 C17).                                       *)
 (* Functional core over a life-cycle record                                *)
-(*   [ports, running, bound, closing, occupied]                            *)
+(*   [ports, running, bound, closing, occupied, limbo]                     *)
 (* ports: configured ports in order; bound: ports the bridge listens on;   *)
 (* closing: closed by the bridge, released one loop cycle later; occupied: *)
 (* ports held by a foreign socket.  MC_Bridge refines start() into one     *)
@@ -11,7 +11,7 @@
 (***************************************************************************)
 EXTENDS Naturals, Sequences, FiniteSets
 
-NewBridge(ports) == [ports |-> ports, running |-> FALSE, bound |-> {}, closing |-> {}, occupied |-> {}]
+NewBridge(ports) == [ports |-> ports, running |-> FALSE, bound |-> {}, closing |-> {}, occupied |-> {}, limbo |-> {}]
 PortSet(B) == {B.ports[k] : k \in 1..Len(B.ports)}
 ValidPort(p) == p >= 0 /\ p <= 65535          \* binding any other number fails (with an error that is not an OSError)
 Busy(B, p) == p \in B.occupied \/ p \in B.bound \/ p \in B.closing \/ ~ValidPort(p)
@@ -24,14 +24,17 @@ StartSucceeds(B) == FailsAt(B) = 0
 \* (what it opened is closed again and released after one loop cycle)
 AfterStart(B) ==
   IF StartSucceeds(B) THEN [B EXCEPT !.bound = @ \cup PortSet(B), !.running = TRUE]
-  ELSE [B EXCEPT !.closing = @ \cup {B.ports[j] : j \in 1..(FailsAt(B) - 1)}]
+  ELSE [B EXCEPT !.closing = @ \cup {B.ports[j] : j \in 1..(FailsAt(B) - 1)},
+                 \* ports listed after the failing one: a bridge that binds its ports one by one never touched them, one that
+                 \* binds them all at once has opened and closed them - until the loop has cycled they may or may not be bindable
+                 !.limbo = {B.ports[j] : j \in (FailsAt(B) + 1)..Len(B.ports)} \ (B.occupied \cup B.bound \cup B.closing)]
 \* start() cancelled (task cancellation, a timeout around it) after k binds: what it opened stays open until stop() - the
 \* clean-up of a failed start does not run for a cancellation - and the flag is untouched
 AfterCancelledStart(B, k) ==
   LET n == IF FailsAt(B) = 0 THEN k ELSE IF k < FailsAt(B) THEN k ELSE FailsAt(B) - 1 IN
   [B EXCEPT !.bound = @ \cup {B.ports[j] : j \in 1..(IF n > Len(B.ports) THEN Len(B.ports) ELSE n)}]
 AfterStop(B) == [B EXCEPT !.closing = @ \cup B.bound, !.bound = {}, !.running = FALSE]
-AfterCycle(B) == [B EXCEPT !.closing = {}]
+AfterCycle(B) == [B EXCEPT !.closing = {}, !.limbo = {}]
 \* beyond the listed statements: an error the OS reports on a socket (ICMP port unreachable, ...) is logged and changes nothing
 AfterNetError(B) == B
 Listening(B) == B.bound
